@@ -2,7 +2,7 @@
    Only theorem statements; every proof is `exact <lemma of Proofs/*>`.
    Models: coq/Model/Base64.v, coq/Model/Armor.v (common/amp/armor_encoder.go, armor_decoder.go;
    the x/net/html tokenizer + decodeToWriter as one byte automaton, see Armor.v header). *)
-From Coq Require Import List NArith Bool Arith String.
+From Coq Require Import List NArith Bool Arith String Lia.
 From Snow Require Import Lib.Wire Model.Base64 Model.Armor.
 From Snow Require Import Proofs.Base64Proofs Proofs.ArmorEncProofs Proofs.ArmorDecProofs Proofs.ArmorMarkupProofs.
 Import ListNotations.
@@ -130,3 +130,21 @@ Example C10_classes_inhabited :
   = [DOk (bs "ABC"); DErr EEmpty; DErr EUnknownVersion; DErr EBadBase64; DErr EBadBase64;
      DErr EStray; DErr ENested; DErr EUnterminated].
 Proof. vm_compute. reflexivity. Qed.
+
+(* non-vacuity of C10_resep_oversize: 32766 spaces before the first word *)
+Example C10_resep_oversize_example :
+  let r := {| r_lead := repeat 32 (N.to_nat 32766); r_words := [(bs "0aGk=", [10])]; r_post := [] |} in
+  Forall rseg_ws ([] ++ [r]) /\
+  Forall (fun r => Forall (Forall armor_char) (map fst (r_words r))) ([] ++ [r]) /\
+  Forall rseg_fits [] /\ MAXBUF <= blen (resep_text r) + 2 /\
+  armor_decode (resep_doc ([] ++ r :: [])) = DErr EOversize.
+Proof.
+  cbv zeta. split; [|split; [|split; [|split]]].
+  - constructor; [|constructor]. split; [apply ws_only_repeat|]. split; repeat constructor.
+  - constructor; [|constructor]. cbn [r_words map fst]. constructor; [|constructor].
+    change (bs "0aGk=") with [48; 97; 71; 107; 61].
+    repeat (apply Forall_cons; [unfold armor_char, PAD, VERSION; lia|]). apply Forall_nil.
+  - constructor.
+  - vm_compute. discriminate.
+  - vm_compute. reflexivity.
+Qed.
